@@ -1,13 +1,17 @@
 package props
 
 import (
+	"bufio"
+	"bytes"
 	stdjson "encoding/json"
 	"errors"
 	"fmt"
 	"io"
 	"os"
 	"path/filepath"
+	"strings"
 	"syscall"
+	"testing/iotest"
 
 	"github.com/gabriel-vasile/mimetype"
 
@@ -308,6 +312,61 @@ func c05Run(c *fw.Ctx, b fw.Batch) {
 				}
 			}
 		}
+	case "reader-zoo":
+		// concrete reader types of the standard library (a fast path keyed on the
+		// dynamic type must behave like the generic path)
+		pr, pw, _ := os.Pipe()
+		pr.Close()
+		pw.Close()
+		for rep := 0; rep < b.N; rep++ {
+			for _, x := range ins {
+				if len(x) > 9000 {
+					x = x[:9000]
+				}
+				for _, lim := range c05Limits(c, len(x)) {
+					want := lib.ChainOf(lib.Detect(x, lim)).String()
+					hdr := len(lib.Header(x, lim))
+					mk := map[string]func() (io.Reader, func() int){
+						"bytes.Buffer":    func() (io.Reader, func() int) { bb := bytes.NewBuffer(append([]byte(nil), x...)); return bb, func() int { return len(x) - bb.Len() } },
+						"bytes.Reader":    func() (io.Reader, func() int) { br := bytes.NewReader(x); return br, func() int { return len(x) - br.Len() } },
+						"strings.Reader":  func() (io.Reader, func() int) { sr := strings.NewReader(string(x)); return sr, func() int { return len(x) - sr.Len() } },
+						"bufio.Reader":    func() (io.Reader, func() int) { return bufio.NewReaderSize(bytes.NewReader(x), 16), func() int { return -1 } },
+						"io.LimitReader":  func() (io.Reader, func() int) { br := bytes.NewReader(x); return io.LimitReader(br, int64(len(x))), func() int { return len(x) - br.Len() } },
+						"io.MultiReader":  func() (io.Reader, func() int) { h := len(x) / 2; return io.MultiReader(bytes.NewReader(x[:h]), bytes.NewReader(x[h:])), func() int { return -1 } },
+						"iotest.OneByte":  func() (io.Reader, func() int) { br := bytes.NewReader(x); return iotest.OneByteReader(br), func() int { return len(x) - br.Len() } },
+						"iotest.DataErr":  func() (io.Reader, func() int) { return iotest.DataErrReader(bytes.NewReader(x)), func() int { return -1 } }, // reads ahead by design
+						"iotest.HalfRead": func() (io.Reader, func() int) { br := bytes.NewReader(x); return iotest.HalfReader(br), func() int { return len(x) - br.Len() } },
+					}
+					for name, f := range mk {
+						rd, consumed := f()
+						key := fw.InputKey(x, lim, "DetectReader/"+name)
+						p := c05Payload{Kind: "reader-zoo:" + name, In: x, Limit: lim, Entry: "DetectReader", InQ: fw.Quote(x, 80)}
+						c.Trace(func() (string, any) { return key, p })
+						var got string
+						var err error
+						if !c.Guard(key, func() any { return p }, func() {
+							mimetype.SetLimit(lim)
+							m, e := mimetype.DetectReader(rd)
+							got, err = lib.ChainOf(m).String(), e
+						}) {
+							continue
+						}
+						c.Eval(1)
+						c.Count("reader_zoo_cases", 1)
+						if err != nil || got != want {
+							c.Violate("entry-points-disagree", key, fmt.Sprintf("DetectReader(%s) gives (%s, %v), Detect on the same bytes gives %s; limit %d", name, got, err, want, lim), p)
+						}
+						if n := consumed(); n >= 0 {
+							wantN := hdr
+							if n != wantN {
+								c.Violate("wrong-consumption", key, fmt.Sprintf("DetectReader(%s) consumed %d bytes of a %d-byte input with limit %d (expected %d)", name, n, len(x), lim, wantN), p)
+							}
+						}
+						c.Distinct("zoo|" + name + "|" + fmt.Sprint(lim == 0, int(lim) < len(x)))
+					}
+				}
+			}
+		}
 	case "limit-change":
 		docs := [][]byte{}
 		for i := 0; i < 40; i++ {
@@ -387,7 +446,7 @@ func init() {
 	fw.Register(&fw.Prop{
 		ID:    "C05",
 		Level: "fault_enumeration",
-		Rule: "inputs = every seed + text tails + small text documents; limits {0, 1, len-1, len, len+1, 3072, random}; chunk schedules {1, 2, 3, 7, 512, as-asked, random 1-9, random 1-2000} with occasional (0, nil) reads and data returned together with io.EOF; a preceding DetectReader under a different limit (state left behind); a sentinel error injected at EVERY offset 0..min(len, limit) for headers <= 600 bytes (every k-th and the last 4 offsets beyond), returned alone or together with the last bytes before it; DetectFile over temp files for every input and limit, an empty file, a missing path, a directory (EISDIR) and /proc/self/mem (read error). The instrumented reader records bytes handed out, calls, and when the sentinel was really returned; expectations are derived from those observations. " +
+		Rule: "inputs = every seed + text tails + small text documents; limits {0, 1, len-1, len, len+1, 3072, random}; chunk schedules {1, 2, 3, 7, 512, as-asked, random 1-9, random 1-2000} with occasional (0, nil) reads and data returned together with io.EOF; a preceding DetectReader under a different limit (state left behind); a sentinel error injected at EVERY offset 0..min(len, limit) for headers <= 600 bytes (every k-th and the last 4 offsets beyond), returned alone or together with the last bytes before it; the standard library's concrete readers (bytes.Buffer, bytes.Reader, strings.Reader, bufio.Reader, io.LimitReader, io.MultiReader, iotest one-byte / half / data-with-error readers) with their consumption checked; DetectFile over temp files for every input and limit, an empty file, a missing path, a directory (EISDIR) and /proc/self/mem (read error). The instrumented reader records bytes handed out, calls, and when the sentinel was really returned; expectations are derived from those observations. " +
 			"non-trivial = a short-read schedule or an injected fault actually occurred before the header was complete; distinct = distinct (chunk kind, zero reads, EOF-with-data, limit class, error offset class, error-with-data, previous-limit differs, outcome).",
 		Assumptions: []string{
 			"only conforming readers: never n > len(p), never endless (0, nil)",
@@ -405,6 +464,7 @@ func init() {
 			bs = append(bs, batches("faults", 12, rf, 1800)...)
 			bs = append(bs, batches("files", 4, 0, 1800)...)
 			bs = append(bs, batches("limit-change", 2, 0, 1800)...)
+			bs = append(bs, batches("reader-zoo", 1, 1, 1800)...)
 			return bs
 		},
 		Run: c05Run,
